@@ -86,7 +86,9 @@ pub fn judge_case(c: &Case) -> Obs {
     if cmds.iter().chain(&more).any(|c| matches!(c, Cmd::Print(_) | Cmd::Registers | Cmd::Assembly(_) | Cmd::BreakList | Cmd::Help | Cmd::Echo(_))) {
         obs.label("history-with-inspection-commands");
     }
-    let run_lace = |p: &Prog, script: &str, input: &[u8], fuel: u64| if minimal { run_lace(p, script, input, fuel) } else { run_lace_mode(p, script, input, fuel, false) };
+    // (always through `--command`: a history may write an input trap into memory and run it, and
+    // nothing here predicts that - with the script on standard input the program would read it)
+    let run_lace = |p: &Prog, script: &str, input: &[u8], fuel: u64| run_lace_mode(p, script, input, fuel, minimal);
     obs.label(["variant-reset", "variant-reset-twice", "variant-reset-history-reset", "variant-reset-then-run"][c.variant as usize % 4]);
 
     // Session A: the history alone - what did it change?
